@@ -473,7 +473,7 @@ PROPS["C07"] = dict(
           "':feed <known or unknown>', resizes; preload_amount 1..5. After every key the driver waits for exact quiescence (shim) and "
           "compares history length and position, input mode, buffer, cursor position and the identity of the highlighted item with a "
           "reference model of the documented keymap computed from the world's ground truth; undocumented second effects of a key that "
-          "cancels a selection are accepted either way. Every Update must return and the UI must settle (20 s). Non-trivial: the "
+          "cancels a selection are accepted either way. Every Update must return and the UI must settle (60 s). Non-trivial: the "
           "history opens a further page and moves the cursor beyond the first preload window, or uses selection or command mode. "
           "Distinct = distinct (world, events)."),
     units=[
@@ -555,7 +555,7 @@ PROPS["C08"] = dict(
           "(keymap keys, digits, '.', Enter, Esc, Backspace, ':feed name' typed out) each issued in its own goroutine after a generated "
           "pause of 0..20 ms as main does, a media hook that runs for 0..60 ms (so keys arrive while it is running), and a resize poller with a period of 1..25 ms "
           "cycling through 2..5 sizes. Oracles: no race "
-          "report; the output callback is never active twice at once; every Update returns and the UI reaches quiescence within 30 s "
+          "report; the output callback is never active twice at once; every Update returns and the UI reaches quiescence within 60 s "
           "of the last key. (Fanout) 2..6 goroutines concurrently build, render, page and splice the same objects of a world. "
           "Non-trivial: at least five keys and more than five frames / at least two workers. Distinct = distinct stimulus. The "
           "schedule itself is not owned by the harness: this finds unsynchronised access pairs that occur, not every interleaving."),
